@@ -40,11 +40,12 @@ type termCtx struct {
 	nextID int
 	vars   []*Term // declaration order
 	varset map[string]*Term
-	ufs    map[string]string // uf name -> declaration
+	ufs    map[string]string      // uf name -> declaration
+	bounds map[string][2]*big.Int // facts learned from the path condition: var -> [lo,hi] (nil = unbounded)
 }
 
 func newTermCtx() *termCtx {
-	return &termCtx{tab: map[string]*Term{}, varset: map[string]*Term{}, ufs: map[string]string{}}
+	return &termCtx{tab: map[string]*Term{}, varset: map[string]*Term{}, ufs: map[string]string{}, bounds: map[string][2]*big.Int{}}
 }
 
 func (c *termCtx) mk(op string, sort Sort, name string, k *big.Int, args ...*Term) *Term {
@@ -221,6 +222,20 @@ func (c *termCtx) rangeOf(a *Term, depth int) (lo, hi *big.Int, ok bool) {
 	switch a.op {
 	case "const":
 		return a.c, a.c, true
+	case "var":
+		if b, ok := c.bounds[a.name]; ok && b[0] != nil && b[1] != nil {
+			return b[0], b[1], true
+		}
+	case "neg":
+		if l, h, ok := c.rangeOf(a.args[0], depth+1); ok {
+			return new(big.Int).Neg(h), new(big.Int).Neg(l), true
+		}
+	case "-":
+		l1, h1, ok1 := c.rangeOf(a.args[0], depth+1)
+		l2, h2, ok2 := c.rangeOf(a.args[1], depth+1)
+		if ok1 && ok2 {
+			return new(big.Int).Sub(l1, h2), new(big.Int).Sub(h1, l2), true
+		}
 	case "mod":
 		if a.args[1].IsConst() && a.args[1].c.Sign() > 0 {
 			return bigZero, new(big.Int).Sub(a.args[1].c, bigOne), true
@@ -250,13 +265,29 @@ func (c *termCtx) rangeOf(a *Term, depth int) (lo, hi *big.Int, ok bool) {
 			if ok1 && l1.Sign() >= 0 {
 				return new(big.Int).Quo(l1, a.args[1].c), new(big.Int).Quo(h1, a.args[1].c), true
 			}
+		} else {
+			// x div y with x >= 0, y >= 1: result in [0, hi(x)]
+			l1, h1, ok1 := c.rangeOf(a.args[0], depth+1)
+			l2, _, ok2 := c.rangeOf(a.args[1], depth+1)
+			if ok1 && ok2 && l1.Sign() >= 0 && l2.Sign() > 0 {
+				return bigZero, h1, true
+			}
 		}
 	case "*":
-		if a.args[1].IsConst() && a.args[1].c.Sign() >= 0 {
-			l1, h1, ok1 := c.rangeOf(a.args[0], depth+1)
-			if ok1 {
-				return new(big.Int).Mul(l1, a.args[1].c), new(big.Int).Mul(h1, a.args[1].c), true
+		l1, h1, ok1 := c.rangeOf(a.args[0], depth+1)
+		l2, h2, ok2 := c.rangeOf(a.args[1], depth+1)
+		if ok1 && ok2 {
+			ps := []*big.Int{new(big.Int).Mul(l1, l2), new(big.Int).Mul(l1, h2), new(big.Int).Mul(h1, l2), new(big.Int).Mul(h1, h2)}
+			lo, hi = ps[0], ps[0]
+			for _, p := range ps[1:] {
+				if p.Cmp(lo) < 0 {
+					lo = p
+				}
+				if p.Cmp(hi) > 0 {
+					hi = p
+				}
 			}
+			return lo, hi, true
 		}
 	}
 	return nil, nil, false
@@ -265,6 +296,14 @@ func (c *termCtx) rangeOf(a *Term, depth int) (lo, hi *big.Int, ok bool) {
 func (c *termCtx) Abs(a *Term) *Term {
 	if a.IsConst() {
 		return c.Const(new(big.Int).Abs(a.c))
+	}
+	if l, h, ok := c.rangeOf(a, 0); ok {
+		if l.Sign() >= 0 {
+			return a
+		}
+		if h.Sign() <= 0 {
+			return c.Neg(a)
+		}
 	}
 	if a.op == "abs" {
 		return a
@@ -288,6 +327,18 @@ func (c *termCtx) Ite(cond, a, b *Term) *Term {
 		}
 		if a.IsFalse() && b.IsTrue() {
 			return c.Not(cond)
+		}
+		if a.IsTrue() {
+			return c.Or(cond, b)
+		}
+		if a.IsFalse() {
+			return c.And(c.Not(cond), b)
+		}
+		if b.IsTrue() {
+			return c.Or(c.Not(cond), a)
+		}
+		if b.IsFalse() {
+			return c.And(cond, a)
 		}
 	}
 	return c.mk("ite", a.sort, "", nil, cond, a, b)
@@ -439,9 +490,31 @@ func (c *termCtx) bitlenCmp(op string, a, b *Term) (*Term, bool) {
 	return nil, false
 }
 
+// constTree reports whether t is a constant or an ite tree with constant leaves (depth-limited).
+func constTree(t *Term, d int) bool {
+	if t.IsConst() {
+		return true
+	}
+	return d < 4 && t.op == "ite" && constTree(t.args[1], d+1) && constTree(t.args[2], d+1)
+}
+
+// pushCmp distributes a comparison with a constant over an ite tree of constants.
+func (c *termCtx) pushCmp(op func(x, y *Term) *Term, a, b *Term) (*Term, bool) {
+	if a.op == "ite" && b.IsConst() && constTree(a, 0) {
+		return c.Ite(a.args[0], op(a.args[1], b), op(a.args[2], b)), true
+	}
+	if b.op == "ite" && a.IsConst() && constTree(b, 0) {
+		return c.Ite(b.args[0], op(a, b.args[1]), op(a, b.args[2])), true
+	}
+	return nil, false
+}
+
 func (c *termCtx) Lt(a, b *Term) *Term {
 	if a.IsConst() && b.IsConst() {
 		return c.Bool(a.c.Cmp(b.c) < 0)
+	}
+	if r, ok := c.pushCmp(c.Lt, a, b); ok {
+		return r
 	}
 	if a == b {
 		return c.False()
@@ -459,6 +532,9 @@ func (c *termCtx) Le(a, b *Term) *Term {
 	if a.IsConst() && b.IsConst() {
 		return c.Bool(a.c.Cmp(b.c) <= 0)
 	}
+	if r, ok := c.pushCmp(c.Le, a, b); ok {
+		return r
+	}
 	if a == b {
 		return c.True()
 	}
@@ -472,9 +548,6 @@ func (c *termCtx) Le(a, b *Term) *Term {
 }
 
 func (c *termCtx) rangeCmp(op string, a, b *Term) (*Term, bool) {
-	if !(a.IsConst() || b.IsConst()) {
-		return nil, false
-	}
 	la, ha, ok1 := c.rangeOf(a, 0)
 	lb, hb, ok2 := c.rangeOf(b, 0)
 	if !ok1 || !ok2 {
@@ -511,6 +584,11 @@ func (c *termCtx) Eq(a, b *Term) *Term {
 	}
 	if a == b {
 		return c.True()
+	}
+	if a.sort == SInt {
+		if r, ok := c.pushCmp(c.Eq, a, b); ok {
+			return r
+		}
 	}
 	if r, ok := c.bitlenCmp("=", a, b); ok {
 		return r
@@ -806,4 +884,71 @@ func (t *Term) String() string {
 		return s[:400] + "…"
 	}
 	return s
+}
+
+// learn records simple variable bounds implied by a fact added to the path condition.
+func (c *termCtx) learn(f *Term) {
+	switch f.op {
+	case "and":
+		c.learn(f.args[0])
+		c.learn(f.args[1])
+		return
+	case "not":
+		g := f.args[0]
+		switch g.op {
+		case "<": // not (a < b)  =>  b <= a
+			c.learnLe(g.args[1], g.args[0], false)
+		case "<=": // not (a <= b) => b < a
+			c.learnLe(g.args[1], g.args[0], true)
+		}
+		return
+	case "or":
+		// (a < b) or (a = b)  ==>  a <= b
+		x, y := f.args[0], f.args[1]
+		if x.op == "=" {
+			x, y = y, x
+		}
+		if x.op == "<" && y.op == "=" && ((x.args[0] == y.args[0] && x.args[1] == y.args[1]) || (x.args[0] == y.args[1] && x.args[1] == y.args[0])) {
+			c.learnLe(x.args[0], x.args[1], false)
+		}
+	case "<":
+		c.learnLe(f.args[0], f.args[1], true)
+	case "<=":
+		c.learnLe(f.args[0], f.args[1], false)
+	case "=":
+		if f.args[0].sort == SInt {
+			c.learnLe(f.args[0], f.args[1], false)
+			c.learnLe(f.args[1], f.args[0], false)
+		}
+	}
+}
+
+// learnLe: a <= b (or a < b when strict).
+func (c *termCtx) learnLe(a, b *Term, strict bool) {
+	if a.op == "var" && a.sort == SInt {
+		if _, hb, ok := c.rangeOf(b, 0); ok {
+			hi := hb
+			if strict {
+				hi = new(big.Int).Sub(hb, bigOne)
+			}
+			cur := c.bounds[a.name]
+			if cur[1] == nil || hi.Cmp(cur[1]) < 0 {
+				cur[1] = hi
+				c.bounds[a.name] = cur
+			}
+		}
+	}
+	if b.op == "var" && b.sort == SInt {
+		if la, _, ok := c.rangeOf(a, 0); ok {
+			lo := la
+			if strict {
+				lo = new(big.Int).Add(la, bigOne)
+			}
+			cur := c.bounds[b.name]
+			if cur[0] == nil || lo.Cmp(cur[0]) > 0 {
+				cur[0] = lo
+				c.bounds[b.name] = cur
+			}
+		}
+	}
 }
